@@ -92,4 +92,30 @@ theorem runNB_sound (tbl : UnitTable) (env : Env) (lines : List NLine) (h : runN
       simp only [hst] at h4
       exact ih env' h4
 
+/-! ### the excluded case of the import side condition: an import that selects nothing -/
+
+/-- When the specification's import selects no node (it then allows rejection: `mayReject`), the
+    model's import line — at any indent, with any written prefix — is an error. -/
+theorem imp_empty_rejected (tbl : UnitTable) (env : Env) (hinv : Inv tbl env) (i : Nat) (pre : List Str)
+    (source : Option Str) (q : SQuery) (hws : WFSource source) (hq : WFQ q) (ss : List SNode)
+    (hl : sLookup (absEnv env) source = some ss) (hsel : select q ss = []) :
+    ∃ e, step tbl env (.node (impAt i pre source q)) = .error e := by
+  obtain ⟨ns, hreq, hss, _⟩ := requestNodes_abs tbl env hinv source hws (renderQ q) ss hl
+  obtain ⟨hpq, hqq⟩ := parse_render q hq
+  have hsrc : '?' ∉ source.getD [] := by
+    cases source with
+    | none => simp
+    | some x => exact (hws x rfl).2
+  have hrq : request env (source.getD [] ++ '?' :: renderQ q) .any = .ok (query ns (toQuery q)) := by
+    unfold request
+    rw [splitQ_render _ _ hsrc hqq]
+    simp only [hreq, hpq, countCheck]
+  have hq0 : query ns (toQuery q) = [] := by
+    rw [hss, select_abs q hq ns] at hsel
+    have hf : ns.filter (qMatches (toQuery q)) = [] := by simpa using hsel
+    simp [query, hf]
+  have hk : (impAt i pre source q).kw = .imp := rfl
+  have hr : (impAt i pre source q).ref = some (source.getD [] ++ '?' :: renderQ q) := rfl
+  exact ⟨"import: no nodes", by simp [step, hk, importNodes, hr, hrq, hq0]⟩
+
 end SciVerif.C17
